@@ -33,6 +33,9 @@ pub enum WireEvent {
         /// None = timed out
         data: Option<Vec<u8>>,
     },
+    /// The preceding receive got nothing, and the real socket object carried NO read timeout at that moment: on a real
+    /// network that receive would not have timed out but blocked for ever (the virtual network let the query go on).
+    BlocksForever { conn: u64 },
 }
 
 #[derive(Clone, Debug)]
@@ -398,6 +401,9 @@ impl VirtualNet for Net {
             size,
             data: seen,
         });
+        if answer.is_none() && gamedig::verif_hook::read_timeout_in_effect() == Some(None) {
+            st.log.push(WireEvent::BlocksForever { conn });
+        }
         drop(guard);
         crate::alloc::resume(armed);
         // the real sockets reserve the *requested* size before anything arrives (TCP: Vec::with_capacity(size), UDP:
@@ -507,6 +513,7 @@ pub fn render_log(log: &[WireEvent]) -> Vec<String> {
                         None => format!("recv#{conn} size={size:?} <- TIMEOUT"),
                     }
                 }
+                WireEvent::BlocksForever { conn } => format!("      #{conn} (the real socket carries no read timeout: this receive would block for ever)"),
             }
         })
         .collect()
